@@ -603,10 +603,15 @@ Proof.
     + exfalso. exact (mat_best_hit thr al (m, av) (j, bv) bl None Hb Ha Hle E).
 Qed.
 
+Lemma qdist_red x b thr : Qle_bool (qdist (Qred x) b) thr = Qle_bool (qdist x b) thr.
+Proof.
+  apply eq_true_iff_eq. rewrite !Qle_bool_iff. unfold qdist. rewrite Qred_correct. reflexivity.
+Qed.
+
 (* unassigned a-events / unused b-events *)
 Lemma amiss_In f : forall tsa ib m0 m v, In (m, v) (amiss f tsa ib m0) <->
   exists i, m = m0 + Z.of_nat i /\ (i < length tsa)%nat /\ (i < length ib)%nat /\
-            nth i ib (-1) < 0 /\ v = apply_a2b f (nth i tsa 0%Q).
+            nth i ib (-1) < 0 /\ v = Qred (apply_a2b f (nth i tsa 0%Q)).
 Proof.
   induction tsa as [|a ra IH]; intros ib m0 m v.
   - cbn [amiss]. split; [intros []|intros [i [_ [H _]]]; cbn in H; lia].
@@ -615,7 +620,7 @@ Proof.
     + assert (Hrec : In (m, v) (amiss f ra rj (m0 + 1)) <->
                      exists i, m = m0 + Z.of_nat (S i) /\ (S i < length (a :: ra))%nat /\
                        (S i < length (j :: rj))%nat /\ nth (S i) (j :: rj) (-1) < 0 /\
-                       v = apply_a2b f (nth (S i) (a :: ra) 0%Q)).
+                       v = Qred (apply_a2b f (nth (S i) (a :: ra) 0%Q))).
       { rewrite IH. split; intros [i H]; exists i; cbn [length nth] in *;
           (repeat split; try lia; try tauto). all: destruct H as [? [? [? [? ?]]]]; assumption. }
       destruct (j <? 0) eqn:Ej.
@@ -703,6 +708,7 @@ Lemma sp_pairs_spec m j : In (m, j) sp_pairs ->
 Proof.
   intros Hin. apply second_loop_ok in Hin. destruct Hin as [av [bv [Ha [Hb Hle]]]]. cbn [fst snd] in *.
   apply amiss_In in Ha. destruct Ha as [i [Hm [Hi1 [Hi2 [Hneg ->]]]]].
+  rewrite qdist_red in Hle.
   apply bmiss_In in Hb. destruct Hb as [k [Hj [Hk [-> Hnot]]]].
   exists i, k. rewrite Z.add_0_l in *. repeat split; auto.
 Qed.
@@ -774,11 +780,12 @@ Proof.
   { intros Hin. apply Hunused. apply In_nth with (d := -1) in Hin. destruct Hin as [i0 [Hi0 E0]].
     rewrite <- E0. rewrite <- (second_pass_keeps i0 Hi0) by lia.
     apply nth_In. unfold ib', second_pass. rewrite update_ib_length. exact Hi0. }
-  assert (Ha : In (Z.of_nat i, apply_a2b f (nth i tsa 0%Q)) (amiss f tsa ib 0)).
+  assert (Ha : In (Z.of_nat i, Qred (apply_a2b f (nth i tsa 0%Q))) (amiss f tsa ib 0)).
   { apply amiss_In. exists i. repeat split; auto; lia. }
   assert (Hb : In (Z.of_nat k, nth k tsb 0%Q) (bmiss tsb ib 0)).
   { apply bmiss_In. exists k. repeat split; auto. }
-  destruct (second_loop_maximal thr _ _ _ (le_n _) _ _ _ _ Ha Hb Hle) as [H|H]; fold sp_pairs in H.
+  assert (Hle' := Hle). rewrite <- qdist_red in Hle'.
+  destruct (second_loop_maximal thr _ _ _ (le_n _) _ _ _ _ Ha Hb Hle') as [H|H]; fold sp_pairs in H.
   - apply in_map_iff in H. destruct H as [[m j] [Hm Hin]]. cbn in Hm. subst m.
     pose proof (lookup_nodup _ _ _ Nd1 Hin) as L.
     unfold ib', second_pass in Hneg. rewrite update_ib_nth in Hneg by exact Hi.
@@ -1229,3 +1236,121 @@ Qed.
 Lemma sync_is_sync_rest linear den tbin delta tsa tsb :
   sync linear den tbin delta tsa tsb = sync_rest linear den tbin tsa tsb (first_pass tbin delta tsa tsb).
 Proof. reflexivity. Qed.
+
+Open Scope Z_scope.
+(* ------------------------------------------------------------------------- *)
+(* Part J — the first pass is invariant under a refinement of the clock tick   *)
+(* ------------------------------------------------------------------------- *)
+Section Scaling.
+Variable k : Z.
+Hypothesis Hk : 0 < k.
+Set Default Proof Using "Hk".
+
+Definition scale_pair (p : Z * Z) : Z * Z := (fst p, k * snd p).
+
+Lemma near_scaled thr x tsb : forall j,
+  near (thr * k) (k * x) (map (Z.mul k) tsb) j = map scale_pair (near thr x tsb j).
+Proof.
+  induction tsb as [|b r IH]; intros j; cbn [map near]; [reflexivity|].
+  replace (Z.abs (k * x - k * b)) with (k * Z.abs (x - b)) by nia.
+  destruct (Z.ltb_spec (Z.abs (x - b)) thr) as [H|H];
+    destruct (Z.ltb_spec (k * Z.abs (x - b)) (thr * k)) as [H'|H']; try nia.
+  - cbn [map]. rewrite IH. reflexivity.
+  - apply IH.
+Qed.
+
+Lemma argmin_first_scaled l : forall best,
+  argmin_first (scale_pair best) (map scale_pair l) = scale_pair (argmin_first best l).
+Proof.
+  induction l as [|p r IH]; intros best; cbn [map argmin_first]; [reflexivity|].
+  unfold scale_pair at 1 2. cbn [snd].
+  destruct (Z.ltb_spec (snd p) (snd best)) as [H|H];
+    destruct (Z.ltb_spec (k * snd p) (k * snd best)) as [H'|H']; try nia; apply IH.
+Qed.
+
+Lemma filter_scaled (g : Z -> bool) l :
+  filter (fun q => g (fst q)) (map scale_pair l) = map scale_pair (filter (fun q => g (fst q)) l).
+Proof.
+  induction l as [|p r IH]; cbn [map filter]; [reflexivity|]. unfold scale_pair at 1. cbn [fst].
+  destruct (g (fst p)); cbn [map]; rewrite IH; reflexivity.
+Qed.
+
+Lemma assign1_scaled thr x tsb prev :
+  assign1 (thr * k) (k * x) (map (Z.mul k) tsb) prev = assign1 thr x tsb prev.
+Proof.
+  unfold assign1. rewrite near_scaled.
+  destruct (near thr x tsb 0) as [|p [|q rest]] eqn:E; cbn [map]; try reflexivity.
+  change (scale_pair p :: scale_pair q :: map scale_pair rest) with (map scale_pair (p :: q :: rest)).
+  rewrite (filter_scaled (fun j => negb (zmem j prev))).
+  destruct (filter (fun q0 => negb (zmem (fst q0) prev)) (p :: q :: rest)) as [|c [|c2 cr]]; cbn [map]; try reflexivity.
+  change (scale_pair q :: map scale_pair rest) with (map scale_pair (q :: rest)).
+  rewrite argmin_first_scaled. reflexivity.
+Qed.
+
+Lemma first_pass_from_scaled thr delta tsb : forall tsa prev,
+  first_pass_from (thr * k) (k * delta) (map (Z.mul k) tsa) (map (Z.mul k) tsb) prev
+  = first_pass_from thr delta tsa tsb prev.
+Proof.
+  induction tsa as [|a r IH]; intros prev; cbn [map first_pass_from]; [reflexivity|].
+  replace (k * a - k * delta) with (k * (a - delta)) by lia.
+  rewrite assign1_scaled, IH. reflexivity.
+Qed.
+
+Lemma first_pass_scaled thr delta tsa tsb :
+  first_pass (thr * k) (k * delta) (map (Z.mul k) tsa) (map (Z.mul k) tsb) = first_pass thr delta tsa tsb.
+Proof. apply first_pass_from_scaled. Qed.
+End Scaling.
+Unset Default Proof Using.
+
+(* with a delta_t that is a whole number of ticks, the rational first pass is the integer one:
+   sync_full and sync describe the same computation *)
+Lemma first_pass_q_ticks den tbin delta tsa tsb :
+  first_pass_q den tbin (tq den delta) tsa tsb = first_pass tbin delta tsa tsb.
+Proof.
+  unfold first_pass_q, tq. cbn [Qnum Qden].
+  replace (delta * Z.pos den) with (Z.pos den * delta) by lia.
+  apply first_pass_scaled. lia.
+Qed.
+
+(* ------------------------------------------------------------------------- *)
+(* Part K — second pass when the first fitted map is the true map (no jitter) *)
+(* ------------------------------------------------------------------------- *)
+Open Scope Q_scope.
+
+Lemma qle_dist_iff x b thr : Qle_bool (qdist x b) thr = true <-> Qabs (x - b) <= thr.
+Proof. unfold qdist. apply Qle_bool_iff. Qed.
+
+Section ExactSecondPass.
+Variables (thr : Q) (f : a2b) (tsa tsb : list Q) (ib : list Z) (d o : Q) (tau : Z -> Q) (la lb : nat -> Z).
+Hypothesis Hlen : length ib = length tsa.
+Hypothesis Hf : forall x, apply_a2b f x == (1 + d) * x + o.
+Hypothesis Ha : forall i, (i < length tsa)%nat -> nth i tsa 0 == tau (la i).
+Hypothesis Hb : forall k, (k < length tsb)%nat -> nth k tsb 0 == (1 + d) * tau (lb k) + o.
+Hypothesis Hthr : 0 <= thr.
+Hypothesis Hsep : forall e e', e <> e' -> thr < Qabs ((1 + d) * (tau e - tau e')).
+Set Default Proof Using "Hlen Hf Ha Hb Hthr Hsep".
+
+Lemma exact_dist i k : (i < length ib)%nat -> (k < length tsb)%nat ->
+  apply_a2b f (nth i tsa 0) - nth k tsb 0 == (1 + d) * (tau (la i) - tau (lb k)).
+Proof.
+  intros Hi Hk. rewrite Hf, (Ha i) by (rewrite <- Hlen; exact Hi). rewrite (Hb k Hk). ring.
+Qed.
+
+Lemma exact_second_pass_sound i k : (i < length ib)%nat -> (nth i ib (-1) < 0)%Z ->
+  nth i (second_pass thr f tsa tsb ib) (-1)%Z = Z.of_nat k -> la i = lb k.
+Proof.
+  apply (second_pass_sound thr f tsa tsb ib Hlen (fun i k => la i = lb k)).
+  intros i' k' Hi Hk Hle. apply qle_dist_iff in Hle. rewrite (exact_dist i' k' Hi Hk) in Hle.
+  destruct (Z.eq_dec (la i') (lb k')) as [|Hne]; [assumption|exfalso].
+  specialize (Hsep _ _ Hne). apply (Qlt_irrefl thr). eapply Qlt_le_trans; [exact Hsep|exact Hle].
+Qed.
+
+Lemma exact_second_pass_complete i k : (i < length ib)%nat -> (k < length tsb)%nat -> la i = lb k ->
+  (0 <= nth i (second_pass thr f tsa tsb ib) (-1))%Z \/ In (Z.of_nat k) (second_pass thr f tsa tsb ib).
+Proof.
+  apply (second_pass_complete thr f tsa tsb ib Hlen (fun i k => la i = lb k)).
+  intros i' k' Hi Hk Hp. apply qle_dist_iff. rewrite (exact_dist i' k' Hi Hk), Hp.
+  setoid_replace ((1 + d) * (tau (lb k') - tau (lb k'))) with 0 by ring. exact Hthr.
+Qed.
+End ExactSecondPass.
+Unset Default Proof Using.
